@@ -10,7 +10,6 @@ import XotModel.Lemmas.ForestBasic
 import XotModel.Lemmas.FmapMove
 import XotModel.Lemmas.FmapHistPos
 import XotModel.Lemmas.FmapHistSer
-import XotModel.Props.C16
 
 namespace XotModel.Props
 open XotModel
@@ -562,20 +561,8 @@ theorem C11_positions_stable (f : Forest) (hi : f.Inv) (op : MapOp2) (hok : op.o
       (key, hd) ∈ absKN k (op.run f).1 x) ∧
     (∀ p q, p ∈ absKN k f x → q ∈ absKN k f x → p ∈ absKN k (op.run f).1 x →
       q ∈ absKN k (op.run f).1 x →
-      ([p, q].Sublist (absKN k f x) ↔ [p, q].Sublist (absKN k (op.run f).1 x))) := by
-  obtain ⟨_, s⟩ := step_all hi (F := famOf f) (fun _ _ => rfl) op hok
-  have hkn := s.kn x k
-  refine ⟨hkn, ?_, ?_, ?_⟩
-  · intro hk
-    rw [← absKN_fst, ← absKN_fst] at hk
-    rw [← absKN_snd, ← absKN_snd, knstep_same_keys hkn hk]
-  · intro key hd hm hk
-    rw [← absKN_fst] at hk
-    have ho : ((absKN k f x).map (·.1)).Nodup := by
-      rw [absKN_fst]; exact unique_keys_of_inv f hi k x
-    exact knstep_keeps_node hkn ho key hd hm hk
-  · intro p q h1 h2 h3 h4
-    exact knstep_pair_iff hkn (absKN_nodup hi k x) (absKN_nodup s.inv k x) p q h1 h2 h3 h4
+      ([p, q].Sublist (absKN k f x) ↔ [p, q].Sublist (absKN k (op.run f).1 x))) :=
+  positions_stable f hi op hok x k
 
 /-- Positions over a history: two entries (key with its node) that are in the view in every
     state the history goes through — never removed, cleared, detached or moved away — have the
@@ -583,12 +570,18 @@ theorem C11_positions_stable (f : Forest) (hi : f.Inv) (op : MapOp2) (hok : op.o
 theorem C11_positions_history (f : Forest) (hi : f.Inv) (ops : List MapOp2)
     (hok : (runOps2 f ops).2.2 = true) (x : Nat) (k : Forest.MapKind) (p q : Nat × Nat)
     (hall : ∀ g ∈ trace2 f ops, p ∈ absKN k g x ∧ q ∈ absKN k g x) :
-    [p, q].Sublist (absKN k f x) ↔ [p, q].Sublist (absKN k (runOps2 f ops).1 x) := by
-  obtain ⟨_, _, _, _, h5, h6⟩ := history_all ops f (famOf f) hi (fun _ _ => rfl) hok
-  obtain ⟨rest, hrest⟩ := trace2_head f ops
-  have hl := trace2_last ops f
-  rw [hrest] at h5 h6 hall hl
-  exact kept_order rest f h6 h5 x k p q hall _ hl
+    [p, q].Sublist (absKN k f x) ↔ [p, q].Sublist (absKN k (runOps2 f ops).1 x) :=
+  positions_history f hi ops hok x k p q hall
+
+/-- Nodes over a history: an entry whose key is in the view in every state the history goes
+    through (it may be updated, never removed, cleared, detached or moved away) is carried by the
+    same node in every state, in particular at the end. -/
+theorem C11_history_keeps_node (f : Forest) (hi : f.Inv) (ops : List MapOp2)
+    (hok : (runOps2 f ops).2.2 = true) (x : Nat) (k : Forest.MapKind) (key hd : Nat)
+    (h0 : (key, hd) ∈ absKN k f x) (hall : ∀ g ∈ trace2 f ops, key ∈ omKeys (abs k g x)) :
+    (∀ g ∈ trace2 f ops, (key, hd) ∈ absKN k g x) ∧ (key, hd) ∈ absKN k (runOps2 f ops).1 x :=
+  ⟨history_keeps_node f hi ops hok x k key hd h0 hall,
+    history_keeps_node f hi ops hok x k key hd h0 hall _ (trace2_last ops f)⟩
 
 /-! ### The remaining reads -/
 
@@ -647,24 +640,8 @@ theorem C11_serialisation_order (f : Forest) (e name : Nat) (t : HTree) (hg : f.
         ka.map (fun k => (k.1, k.2.1)) =
           (absAttrs f e).map (fun a => (start ++ rel, Output.attribute a.1 a.2))) ∧
       serializeStringWith esc env pr T start =
-        .ok (ks.flatMap (fun k => (if k.2.2.space then [' '] else []) ++ k.2.2.text)) := by
-  have hve : (HTree.erase t).value = .element name := by rw [erase_value, hv]
-  obtain ⟨pre, post, hev⟩ := genOutputs_startTag T start rel n _ inScope name hn hs hrel hve
-  obtain ⟨hns, hat⟩ := C11_order f e t hg
-  rw [hns, hat] at hev
-  refine ⟨⟨pre, post, hev⟩, ?_⟩
-  intro esc env pr ks hk
-  refine ⟨?_, C16_tokens esc env pr T start ks hk⟩
-  have hm := tokens_events esc env pr T start ks hk
-  rw [hev] at hm
-  obtain ⟨l1, k2a, h1, _, h2⟩ := map_split _ ks _ _ (by
-    simpa only [List.append_assoc] using hm : ks.map (fun k => (k.1, k.2.1)) =
-      (pre ++ ([(start ++ rel, Output.startTagOpen name)] ++
-        (if rel.isEmpty then extraPrefixes inScope (HTree.erase t) else []).map
-          (fun o => (start ++ rel, o)))) ++ _)
-  obtain ⟨kd, k2b, h3, h4, h5⟩ := map_split _ k2a _ _ h2
-  obtain ⟨ka, k2, h6, h7, _⟩ := map_split _ k2b _ _ h5
-  exact ⟨l1, kd, ka, k2, by rw [h1, h3, h6]; simp, h4, h7⟩
+        .ok (ks.flatMap (fun k => (if k.2.2.space then [' '] else []) ++ k.2.2.text)) :=
+  serialisation_order f e name t hg hv T start rel n inScope hn hs hrel
 
 /-! ### Non-vacuity of the history theorems -/
 
@@ -727,6 +704,12 @@ example : abs .attributes (runOps2 c11Example3 c11HistoryB).1 1 = [(5, .str ['b'
     element 1 are there in every state of the first two steps. -/
 example : ∀ g ∈ trace2 c11Example3 (c11HistoryA.take 2),
     (3, 3) ∈ absKN .attributes g 1 ∧ (5, 4) ∈ absKN .attributes g 1 := by
+  decide
+
+/-- The hypotheses of `C11_history_keeps_node`: key 3 of element 1, carried by node 3, is there in
+    every state of history A (its value is rewritten by the fourth step). -/
+example : (3, 3) ∈ absKN .attributes c11Example3 1 ∧
+    ∀ g ∈ trace2 c11Example3 (c11HistoryA.take 5), 3 ∈ omKeys (abs .attributes g 1) := by
   decide
 
 /-- The hypotheses of `C11_serialisation_order` on the example: element 1 at path `[0]` of the
